@@ -375,6 +375,8 @@ def judge(o, c, run, follow, fresh, where, recheck=None):
             "aborted": "aborted by the time limit",
         }[real]
         inband = inband_at(run)
+        if inband and real == "returned" and want == "aborted":
+            why = "returned its own value after the time limit had struck"
         if inband:
             at = f"made by wrapper {inband[0]} ({c['wrap'][inband[0] - 1]})" if inband[0] <= len(c["wrap"]) else "made by the body's loop"
             why += (f"; the time limit struck inside the nested invocation {at}: it came back to the enclosing module as the "
@@ -526,7 +528,7 @@ def check_sessions(o, d: Path):
     for attempt in (1, 2):
         if not suspects:
             break
-        again = run_sessions([cases[i]["sess"] for i in suspects], d / f"sessions-redo{attempt}", nproc=1 if len(suspects) <= 6 else 3)
+        again = run_sessions([cases[i]["sess"] for i in suspects], d / f"sessions-redo{attempt}", nproc=1 if len(suspects) <= 3 else 3)
         still = []
         for i, got in zip(suspects, again):
             if first_mismatch(cases[i], got) is None:
